@@ -168,3 +168,120 @@ Proof. reflexivity. Qed.
 (* truncated inside a chunk: the source fails *)
 Example cut_lzma2_trunc : cut_lzma2 [1;0;0;33; 1;0]%Z = mkCut [[1;0;0;33;0]]%Z (Some E_UNEXPECTED_EOF) [false; true].
 Proof. reflexivity. Qed.
+
+(* ---------------- LZIP reader: scan_members ---------------- *)
+Local Open Scope Z_scope.
+
+Lemma skipn_skipn_ {A} (a b : nat) (l : list A) : skipn a (skipn b l) = skipn (b + a) l.
+Proof.
+  revert l; induction b as [|b IH]; intros l; simpl; [reflexivity|].
+  destruct l as [|x t]; [destruct a; reflexivity|]. apply IH.
+Qed.
+
+(* a slice that lies inside the middle part of a concatenation *)
+Lemma slice_mid (a m b : list Z) (off len : Z) :
+  0 <= off -> 0 <= len -> off + len <= zlen m ->
+  slice (a ++ m ++ b) (zlen a + off) len = Some (firstn (Z.to_nat len) (skipn (Z.to_nat off) m)).
+Proof.
+  intros Ho Hl Hb. unfold slice, zlen in *. rewrite !app_length, !Nat2Z.inj_add.
+  destruct (Z.ltb_spec (Z.of_nat (length a) + off) 0); [lia|].
+  destruct (Z.ltb_spec len 0); [lia|].
+  destruct (Z.ltb_spec (Z.of_nat (length a) + (Z.of_nat (length m) + Z.of_nat (length b)))
+                       (Z.of_nat (length a) + off + len)); [lia|].
+  cbn [orb]. f_equal.
+  replace (Z.to_nat (Z.of_nat (length a) + off)) with (length a + Z.to_nat off)%nat by lia.
+  rewrite skipn_app.
+  rewrite (skipn_all2 a) by lia. cbn [app].
+  replace (length a + Z.to_nat off - length a)%nat with (Z.to_nat off) by lia.
+  rewrite skipn_app, firstn_app.
+  assert (L : (Z.to_nat len <= length (skipn (Z.to_nat off) m))%nat) by (rewrite skipn_length; lia).
+  replace (Z.to_nat len - length (skipn (Z.to_nat off) m))%nat with 0%nat by lia.
+  cbn [firstn]. rewrite app_nil_r. reflexivity.
+Qed.
+
+(* a well-formed member, as far as scan_members looks at it: at least header + trailer, the magic
+   bytes, and the member_size field (last 8 bytes, little endian) holding the member's length *)
+Definition wf_member (m : list Z) : Prop :=
+  26 <= zlen m /\ firstn 4 m = [76; 90; 73; 80] /\
+  le_value (skipn (length m - 8) m) = zlen m.
+
+(* the member table of consecutive members starting at [start] *)
+Fixpoint member_table (start : Z) (ms : list (list Z)) : list (Z * Z) :=
+  match ms with
+  | [] => []
+  | m :: t => (start, zlen m) :: member_table (start + zlen m) t
+  end.
+
+Lemma member_table_app start a b :
+  member_table start (a ++ b) = member_table start a ++ member_table (start + zlen (concat a)) b.
+Proof.
+  revert start; induction a as [|m t IH]; intros start; simpl.
+  - unfold zlen; simpl. f_equal. lia.
+  - rewrite IH. f_equal. f_equal. unfold zlen. rewrite app_length, Nat2Z.inj_add. f_equal. lia.
+Qed.
+
+Lemma zlen_app {A} (a b : list A) : zlen (a ++ b) = zlen a + zlen b.
+Proof. unfold zlen. rewrite app_length. lia. Qed.
+
+Lemma scan_go_sound : forall (pre suf : list (list Z)) fuel acc,
+  Forall wf_member pre -> (length pre < fuel)%nat ->
+  scan_go fuel (concat (pre ++ suf)) (zlen (concat pre)) acc = Ok (member_table 0 pre ++ acc).
+Proof.
+  intros pre. induction pre as [|m pre' IH] using rev_ind; intros suf fuel acc Hwf Hf.
+  - destruct fuel; [simpl in Hf; lia|]. reflexivity.
+  - destruct fuel as [|n]; [lia|]. rewrite app_length in Hf. cbn [length] in Hf.
+    apply Forall_app in Hwf. destruct Hwf as [Hpre Hm]. inversion Hm as [|? ? [L26 [Hmagic Hsz]] _]; subst.
+    (* the file as prefix ++ member ++ rest *)
+    assert (Hfile : concat ((pre' ++ [m]) ++ suf) = concat pre' ++ m ++ concat suf).
+    { rewrite !concat_app. cbn [concat]. rewrite app_nil_r, <- app_assoc. reflexivity. }
+    assert (Hpm : zlen (concat (pre' ++ [m])) = zlen (concat pre') + zlen m).
+    { rewrite concat_app. cbn [concat]. rewrite app_nil_r. apply zlen_app. }
+    rewrite Hpm.
+    set (P := zlen (concat pre')). set (M := zlen m).
+    assert (HP : 0 <= P) by (unfold P, zlen; lia).
+    cbn [scan_go].
+    destruct (Z.leb_spec (P + M) 0); [lia|]. destruct (Z.ltb_spec (P + M) 20); [lia|].
+    rewrite Hfile.
+    replace (P + M - 20) with (P + (M - 20)) by lia.
+    unfold P at 1. rewrite slice_mid by (fold M; lia).
+    replace (Z.to_nat 20) with 20%nat by reflexivity.
+    assert (H20 : firstn 20 (skipn (Z.to_nat (M - 20)) m) = skipn (Z.to_nat (M - 20)) m).
+    { apply firstn_all2. rewrite skipn_length. unfold M, zlen in *. lia. }
+    rewrite H20, skipn_skipn_.
+    replace (Z.to_nat (M - 20) + 12)%nat with (length m - 8)%nat by (unfold M, zlen in *; lia).
+    rewrite Hsz. fold M.
+    destruct (Z.eqb_spec M 0); [lia|]. destruct (Z.ltb_spec (P + M) M); [lia|]. cbn [orb].
+    replace (P + M - M) with (P + 0) by lia.
+    unfold P at 1. rewrite slice_mid by (fold M; lia).
+    change (Z.to_nat 4) with 4%nat. change (Z.to_nat 0) with 0%nat. cbn [skipn]. rewrite Hmagic.
+    destruct (list_eq_dec Z.eq_dec [76; 90; 73; 80] [76; 90; 73; 80]) as [_|Hne]; [|congruence].
+    replace (P + 0) with P by lia.
+    assert (Hfile2 : concat pre' ++ m ++ concat suf = concat (pre' ++ m :: suf)).
+    { rewrite concat_app. cbn [concat]. reflexivity. }
+    rewrite Hfile2.
+    unfold P. rewrite (IH (m :: suf) n ((zlen (concat pre'), M) :: acc) Hpre) by lia.
+    rewrite member_table_app. cbn [member_table]. rewrite <- app_assoc. cbn [app].
+    replace (0 + zlen (concat pre')) with (zlen (concat pre')) by lia. reflexivity.
+Qed.
+
+(* For a file that is the concatenation of well-formed members the backward scan returns exactly
+   the member table, in forward order. *)
+Theorem lzip_scan_sound (ms : list (list Z)) :
+  ms <> [] -> Forall wf_member ms -> scan_members (concat ms) = Ok (member_table 0 ms).
+Proof.
+  intros Hne Hwf. unfold scan_members.
+  assert (Hlen : 26 * Z.of_nat (length ms) <= zlen (concat ms)).
+  { clear Hne. induction Hwf as [|m t [L _] _ IH]; [unfold zlen; simpl; lia|].
+    cbn [concat length]. rewrite zlen_app. lia. }
+  assert (Hpos : (0 < length ms)%nat) by (destruct ms; [congruence|simpl; lia]).
+  destruct (Z.ltb_spec (zlen (concat ms)) 26); [lia|].
+  pose proof (scan_go_sound ms [] (S (length (concat ms))) [] Hwf) as Hs.
+  rewrite !app_nil_r in Hs. rewrite Hs by (unfold zlen in Hlen; lia).
+  destruct ms as [|m t]; [congruence|]. reflexivity.
+Qed.
+
+Example lzip_scan_example :
+  let m1 := [76;90;73;80;1;12] ++ repeatn 0 12 ++ [26;0;0;0;0;0;0;0] in
+  let m2 := [76;90;73;80;1;12; 7;7;7] ++ repeatn 0 12 ++ [29;0;0;0;0;0;0;0] in
+  wf_member m1 /\ wf_member m2 /\ scan_members (m1 ++ m2) = Ok [(0, 26); (26, 29)].
+Proof. unfold wf_member; cbv; intuition congruence. Qed.
